@@ -1,9 +1,27 @@
 // C13 -- in-place and overlapping buffers give the same result as disjoint ones.
 // Differential oracle: the same call with disjoint buffers (and, for open/decrypt, the original message).
+#define VH_NO_SODIUM_INIT 1
 #include "vh_main.hpp"
 using namespace vh;
 
 namespace {
+
+// Sealed boxes draw an ephemeral key: a deterministic source, rewound before every call, makes the overlapped and the disjoint
+// run of crypto_box_seal comparable byte for byte.
+uint64_t g_rpos = 0;
+void det_buf(void *p, size_t n) { uint8_t *b = (uint8_t *) p; for (size_t i = 0; i < n; i++) { uint64_t z = mix64(0x5ea1ed, (g_rpos + i) / 8); b[i] = (uint8_t) (z >> (8 * ((g_rpos + i) % 8))); } g_rpos += n; }
+uint32_t det_random() { uint32_t v; det_buf(&v, 4); return v; }
+const char *det_name() { return "c13-deterministic"; }
+randombytes_implementation DET = { det_name, det_random, nullptr, nullptr, det_buf, nullptr };
+void init_once() {
+    static bool done = false;
+    if (done) return;
+    done = true;
+    randombytes_set_implementation(&DET);
+    if (sodium_init() < 0) { fprintf(stderr, "VH-INFRA sodium_init failed\n"); _exit(2); }
+    sodium_verif_set_cpu_mask(F_ALL);
+    detected_ref() = current_features();
+}
 
 inline const uint8_t *D(const Bytes &b) { static uint8_t z[8]; return b.empty() ? z : b.data(); }
 inline uint8_t *D(Bytes &b) { static uint8_t z[8]; return b.empty() ? z : b.data(); }
@@ -107,6 +125,15 @@ std::vector<Api> &apis() {
         [](const Bytes &m, const Env &e, Bytes &side) { Bytes c(m.size()); side.assign(16, 0); P##_detached_afternm(D(c), D(side), D(m), m.size(), D(e.nonce), e.BN.data()); return c; }, false });
     BOX(crypto_box, beforenm)
     BOX(crypto_box_curve25519xchacha20poly1305, beforenm_x)
+    // ---------------- sealed boxes, sealed in place (exact aliasing, as the library's own test does); deterministic ephemeral key
+    v.push_back(Api{ "crypto_box_seal", false, false, plus<48>, [](uint8_t *o, const uint8_t *i, size_t n, const Env &e, Bytes &side) {
+        g_rpos = 0; int r = crypto_box_seal(o, i, n, D(e.pk2));
+        if (r == 0) { Bytes opened(n); if (crypto_box_seal_open(D(opened), o, n + 48, D(e.pk2), D(e.sk2)) != 0) return -77; side = opened; }      // side: what the recipient gets back
+        return r; }, nomake, false });
+    v.push_back(Api{ "crypto_box_curve25519xchacha20poly1305_seal", false, false, plus<48>, [](uint8_t *o, const uint8_t *i, size_t n, const Env &e, Bytes &side) {
+        g_rpos = 0; int r = crypto_box_curve25519xchacha20poly1305_seal(o, i, n, D(e.pk2));
+        if (r == 0) { Bytes opened(n); if (crypto_box_curve25519xchacha20poly1305_seal_open(D(opened), o, n + 48, D(e.pk2), D(e.sk2)) != 0) return -77; side = opened; }
+        return r; }, nomake, false });
     // ---------------- sign / sign_open
     v.push_back(Api{ "crypto_sign", true, false, plus<64>, [](uint8_t *o, const uint8_t *i, size_t n, const Env &e, Bytes &side) {
         unsigned long long sl = 0; int r = crypto_sign(o, &sl, i, n, D(e.signsk)); side.assign((uint8_t *) &sl, (uint8_t *) &sl + 8); return r; }, nomake, false });
@@ -127,7 +154,8 @@ size_t key_len(const std::string &n) { return n.find("aegis128l") != std::string
 
 struct Case {
     int api; size_t mlen; int off; unsigned long mask; uint64_t cseed;
-    KV kv() const { KV k; k.s("api", apis()[api].name).u("mlen", mlen).i("off", off).u("mask", mask).u("cseed", cseed); return k; }
+    bool tamper = false;     // decrypt forms only: the input is altered, the call must fail, and the shared buffer must not hold the plaintext afterwards
+    KV kv() const { KV k; k.s("api", apis()[api].name).u("mlen", mlen).i("off", off).u("mask", mask).u("cseed", cseed).u("tamper", tamper); return k; }
 };
 
 Env make_env(const Api &a, Rng &r) {
@@ -148,6 +176,7 @@ Env make_env(const Api &a, Rng &r) {
 }
 
 bool run(const Case &c, std::string &msg) {
+    init_once();
     const Api &a = apis()[c.api];
     set_mask(c.mask);
     if (a.needs_aesgcm && !crypto_aead_aes256gcm_is_available()) return true;
@@ -157,11 +186,28 @@ bool run(const Case &c, std::string &msg) {
     if (a.is_open) input = a.make_input(message, e, side_in);
     size_t inlen = input.size(), outlen = a.outlen(inlen);
     char b[300];
+    if (c.tamper) {
+        // a failing decryption in place: same verdict as with disjoint buffers, and no plaintext left where the ciphertext was
+        if (!a.is_open || std::string(a.name).find("_decrypt") == std::string::npos || inlen == 0) return true;
+        Bytes bad = input, side_bad = side_in;
+        if (!side_bad.empty() && (c.cseed & 1)) side_bad[(c.cseed >> 8) % side_bad.size()] ^= (uint8_t) (1u << ((c.cseed >> 3) % 8)); else bad[(c.cseed >> 8) % bad.size()] ^= (uint8_t) (1u << ((c.cseed >> 3) % 8));
+        Bytes sd = side_bad; int r1; { XBuf in(bad, 3), out(outlen, 9, 0xcc); r1 = a.call(out.p, in.p, inlen, e, sd); }
+        XBuf u(std::max(inlen, outlen), 5, 0xee); memcpy(u.p, D(bad), inlen);
+        Bytes sd2 = side_bad; int r2 = a.call(u.p, u.p, inlen, e, sd2);
+        if (r1 == 0 || r2 == 0) { snprintf(b, sizeof b, "%s accepted an altered input (disjoint rc %d, in place rc %d, len %zu)", a.name, r1, r2, c.mlen); msg = b; return false; }
+        if (message.size() >= 8) {
+            Bytes after(u.p, u.p + outlen);
+            size_t same = 0; for (size_t i = 0; i < message.size() && i < after.size(); i++) if (after[i] == message[i]) same++;
+            if (same * 2 > message.size() + 8) { snprintf(b, sizeof b, "%s failed in place (rc %d) but left %zu of %zu plaintext bytes in the shared buffer", a.name, r2, same, message.size()); msg = b; return false; }
+        }
+        return true;
+    }
     // 1. disjoint buffers
     Bytes side1 = side_in, out1;
     int rc1;
     { XBuf in(input, 3), out(outlen, 9, 0xcc); rc1 = a.call(out.p, in.p, inlen, e, side1); out1 = out.get(); }
     if (rc1 != 0) { snprintf(b, sizeof b, "%s with disjoint buffers returned %d", a.name, rc1); msg = b; return false; }
+    if (std::string(a.name).find("_seal") != std::string::npos && side1 != message) { snprintf(b, sizeof b, "%s with disjoint buffers: the recipient does not get the message back", a.name); msg = b; return false; }
     if (a.is_open && out1 != message) { snprintf(b, sizeof b, "%s with disjoint buffers did not return the original message", a.name); msg = b; return false; }
     // 2. overlapping layout: out = in + off
     size_t ia = c.off < 0 ? (size_t)(-c.off) : 0, oa = c.off > 0 ? (size_t) c.off : 0;
@@ -191,6 +237,7 @@ std::vector<unsigned long> masks13() {
 }
 
 void explore(Ctx &ctx, bool any_offset_group) {
+    init_once();
     auto &A = apis();
     auto masks = masks13();
     uint64_t idx = 0;
@@ -207,6 +254,7 @@ void explore(Ctx &ctx, bool any_offset_group) {
                 Case c{ (int) ai, len, 0, ctx.thorough() ? masks[0] : m, cs };
                 exec_case(ctx, c, run, mix64(mix64(ai, len), c.mask), len >= 16);
                 if (ctx.thorough()) for (size_t mi = 1; mi < masks.size(); mi++) { Case c2{ (int) ai, len, 0, masks[mi], cs }; exec_case(ctx, c2, run, mix64(mix64(ai, len), masks[mi]), len >= 16); }
+                if (A[ai].is_open && (len % 3 == 0 || len < 70 || ctx.thorough())) { Case ct{ (int) ai, len, 0, c.mask, cs ^ 0x7a3 }; ct.tamper = true; exec_case(ctx, ct, run, mix64(mix64(ai, len), mix64(c.mask, 0x7a3)), len >= 8); }
             }
         } else {
             // every offset -80..80 x lengths with all residues mod 64 spread over 0..1280
@@ -238,7 +286,7 @@ bool replay(const KV &k, std::string &msg) {
     Case c; c.api = -1;
     for (size_t i = 0; i < apis().size(); i++) if (k.gs("api") == apis()[i].name) c.api = (int) i;
     if (c.api < 0) { msg = "unknown api"; return false; }
-    c.mlen = k.gu("mlen"); c.off = (int) k.gi("off"); c.mask = k.gu("mask"); c.cseed = k.gu("cseed");
+    c.mlen = k.gu("mlen"); c.off = (int) k.gi("off"); c.mask = k.gu("mask"); c.cseed = k.gu("cseed"); c.tamper = k.has("tamper") && k.gu("tamper") != 0;
     return run(c, msg);
 }
 
